@@ -4,8 +4,12 @@
    `stored` is the projection of CesiumStore's committed[c]: the committed samples of the
    channel in time order, as a sequence of <<time, id>> (ids are the write identities of
    CesiumStore; the harness derives distinguishable bytes from (c, time, id) and maps the
-   bytes an iterator returns back to <<time, id>>).  The store does not change while an
-   iterator is used.  Time is an integer line 0..N.  In CesiumStore samples sit at even
+   bytes an iterator returns back to <<time, id>>).  The store may GROW while an iterator is
+   open (action Grow: commits of writers add samples; deletes under an open iterator are
+   outside C10): `stored` always is the content committed by the commits that have RETURNED,
+   and every clause reads it in the state BEFORE the command - a step issued after a commit
+   returned sees that commit (the iterator is not a snapshot; domain/iterator.go says so).
+   Time is an integer line 0..N.  In CesiumStore samples sit at even
    abstract times; an iterator view however may end at ANY nanosecond (view.end + span), so
    for trace validation the driver maps every timestamp occurring in a recorded trace
    (samples, bounds, views, seek arguments, span targets) to its rank among them - order and
@@ -20,6 +24,8 @@
      Prev(target)    Iterator.Prev(span),  target = view.start - span
      NextAuto        Iterator.Next(AutoSpan) -> autoNext
      PrevAuto        Iterator.Prev(AutoSpan) -> autoPrev
+     Grow            Writer.Commit / auto-committing Writer.Write of any writer (extends a domain
+                     the iterator may be positioned on, or appends a new one) - no iterator call
    Observation after every command: View(), Value() (as <<time,id>> in frame order),
    Valid(), Error().
 
@@ -65,7 +71,8 @@ Time == 0..N
 Min2(a, b) == IF a <= b THEN a ELSE b
 Max2(a, b) == IF a >= b THEN a ELSE b
 Clamp(t) == Min2(Max2(t, bounds[1]), bounds[2])
-Read(a, b) == SelectSeq(stored, LAMBDA p : a <= p[1] /\ p[1] < b)
+ReadIn(seq, a, b) == SelectSeq(seq, LAMBDA p : a <= p[1] /\ p[1] < b)
+Read(a, b) == ReadIn(stored, a, b)      \* the content committed before the command
 FwdKinds == {"fwd", "afwd"}
 BwdKinds == {"bwd", "abwd"}
 
@@ -136,6 +143,17 @@ PrevAuto ==
        /\ Len(Read(s, view[1])) = Min2(chunk, Len(Read(bounds[1], view[1])))
        /\ StepBwd(<<s, view[1]>>, "abwd")
 
+\* The store grows under the open iterator. Nothing the iterator reports changes; a traversal
+\* in progress stays exactly-once only while no sample appears in the part already traversed.
+GrowTo(ns) ==
+  /\ \A i \in DOMAIN stored : \E j \in DOMAIN ns : ns[j] = stored[i]
+  /\ stored' = ns
+  /\ LET keep == \/ run = "first" /\ ReadIn(ns, bounds[1], view[2]) = acc
+                  \/ run = "last" /\ ReadIn(ns, view[1], bounds[2]) = acc
+     IN /\ run' = IF keep THEN run ELSE "off"
+        /\ acc' = IF keep THEN acc ELSE <<>>
+  /\ UNCHANGED <<chunk, bounds, view, frame, valid, last>>
+
 \* ------------------------------------------------------------------ design-level model
 \* every layout over the time line (ids: the time itself + 1), every chunk size
 RECURSIVE SeqOf(_, _)
@@ -150,14 +168,16 @@ NextStep == \/ \E a, b \in Time : SetBounds(a, b)
             \/ \E k \in {"ge", "le"}, t \in Time : Seek(k, t)
             \/ \E t \in -1..(N + 1) : Next(t) \/ Prev(t)
             \/ NextAuto \/ PrevAuto
+            \/ \E S \in SUBSET Time : LET ns == SeqOf(S \cup {stored[i][1] : i \in DOMAIN stored}, 0)
+                                      IN ns # stored /\ GrowTo(ns)
 Spec == Init /\ [][NextStep]_ivars
 
 TypeOK == /\ bounds[1] <= bounds[2] /\ view[1] <= view[2]
           /\ bounds[1] <= view[1] /\ view[2] <= bounds[2]
           /\ last \in {"none", "seek"} \cup FwdKinds \cup BwdKinds
           /\ run \in {"off", "first", "last"}
-\* the frame always is the content of the view
-FrameInv == frame = Read(view[1], view[2])
+\* a growth step changes nothing the iterator reports
+GrowClauses == [][stored' # stored => UNCHANGED <<chunk, bounds, view, frame, valid, last>>]_ivars
 \* a finished traversal has returned every sample in the bounds exactly once
 FullTraversalOnce ==
   /\ (run = "first" /\ last \in FwdKinds /\ (view[2] = bounds[2] \/ (last = "afwd" /\ ~valid)))
@@ -165,14 +185,14 @@ FullTraversalOnce ==
   /\ (run = "last" /\ last \in BwdKinds /\ (view[1] = bounds[1] \/ (last = "abwd" /\ ~valid)))
         => acc = Read(bounds[1], bounds[2])
 \* action properties: every step of the model satisfies the clauses
-IsStepF == last' \in FwdKinds /\ ~UNCHANGED ivars
-IsStepB == last' \in BwdKinds /\ ~UNCHANGED ivars
+IsStepF == last' \in FwdKinds /\ stored' = stored /\ ~UNCHANGED ivars
+IsStepB == last' \in BwdKinds /\ stored' = stored /\ ~UNCHANGED ivars
 StepClauses == [][(IsStepF \/ IsStepB) => (FrameIsView /\ ViewOrdered /\ InBounds /\ ValidIffData)]_ivars
 Adjacent == [][/\ (IsStepF /\ last \in FwdKinds \cup {"seek"}) => AdjFwd
                /\ (IsStepB /\ last \in BwdKinds \cup {"seek"}) => AdjBwd]_ivars
-AutoClauses == [][/\ (last' = "afwd" /\ ~UNCHANGED ivars) => (AutoProgressFwd /\ AutoDataFwd /\ AutoCountFwd)
-                  /\ (last' = "abwd" /\ ~UNCHANGED ivars) => (AutoProgressBwd /\ AutoDataBwd /\ AutoCountBwd)]_ivars
-SeekClauses == [][(last' = "seek" /\ ~UNCHANGED ivars) =>
+AutoClauses == [][/\ (last' = "afwd" /\ IsStepF) => (AutoProgressFwd /\ AutoDataFwd /\ AutoCountFwd)
+                  /\ (last' = "abwd" /\ IsStepB) => (AutoProgressBwd /\ AutoDataBwd /\ AutoCountBwd)]_ivars
+SeekClauses == [][(last' = "seek" /\ stored' = stored /\ ~UNCHANGED ivars) =>
                     /\ SeekInBounds /\ FrameIsView
                     /\ (run' = "first" => SeekFirstNoSkip)
                     /\ (run' = "last" => SeekLastNoSkip)]_ivars
